@@ -1,8 +1,4 @@
-import PpciVerif.Model.Proto
-import PpciVerif.Model.Regex
-import PpciVerif.Model.RegexParse
-import PpciVerif.Spec.Lang
-import PpciVerif.Spec.RegexLang
+import PpciVerif.Model.RegexProto
 /-! Line-protocol driver for C31.
 
 Encodings (no blanks inside a value)
@@ -26,223 +22,5 @@ Requests
   smart O|A|C <Re> <Re>             ok <Re>     logical_or / logical_and / concatenate
   langmany <Re> <n> <alphabet>      ok <bits>   Spec.Lang.matchB on the denotation of a Regex object
 -/
-open Proto Model.Regex Model.RegexParse Spec.Lang
 
-/-! ### encodings -/
-
-def showSet (s : SymSet) : String :=
-  "[" ++ ",".intercalate (s.map fun r => s!"{r.1}:{r.2}") ++ "]"
-
-def showRe : Re → String
-  | .eps => "E"
-  | .set s => "S" ++ showSet s
-  | .star e => "K(" ++ showRe e ++ ")"
-  | .cat l r => "C(" ++ showRe l ++ "," ++ showRe r ++ ")"
-  | .or l r => "O(" ++ showRe l ++ "," ++ showRe r ++ ")"
-  | .and l r => "A(" ++ showRe l ++ "," ++ showRe r ++ ")"
-
-abbrev P (α : Type) := List Char → Option (α × List Char)
-
-def pInt : P Int := fun cs =>
-  let (neg, cs) := match cs with
-    | '-' :: r => (true, r)
-    | _ => (false, cs)
-  let ds := cs.takeWhile Char.isDigit
-  if ds.isEmpty then none else
-  let n : Nat := ds.foldl (fun a d => a * 10 + (d.toNat - 48)) 0
-  some ((if neg then -(n : Int) else (n : Int)), cs.drop ds.length)
-
-partial def pRanges (acc : List (Int × Int)) : P (List (Int × Int)) := fun cs =>
-  match cs with
-  | ']' :: r => some (acc.reverse, r)
-  | ',' :: r => pRanges acc r
-  | _ =>
-    match pInt cs with
-    | some (a, ':' :: r) =>
-      (match pInt r with
-       | some (b, r') => pRanges ((a, b) :: acc) r'
-       | none => none)
-    | _ => none
-
-partial def pRe : P Re := fun cs =>
-  let bin (mk : Re → Re → Re) (r : List Char) : Option (Re × List Char) :=
-    match pRe r with
-    | some (a, ',' :: r1) =>
-      (match pRe r1 with
-       | some (b, ')' :: r2) => some (mk a b, r2)
-       | _ => none)
-    | _ => none
-  match cs with
-  | 'E' :: r => some (.eps, r)
-  | 'S' :: '[' :: r => (pRanges [] r).map fun (s, r') => (.set s, r')
-  | 'K' :: '(' :: r =>
-    (match pRe r with
-     | some (a, ')' :: r1) => some (.star a, r1)
-     | _ => none)
-  | 'C' :: '(' :: r => bin .cat r
-  | 'O' :: '(' :: r => bin .or r
-  | 'A' :: '(' :: r => bin .and r
-  | _ => none
-
-def re? (s : String) : Option Re :=
-  match pRe s.toList with
-  | some (r, []) => some r
-  | _ => none
-
-partial def pSyn : P Syn := fun cs =>
-  let un (mk : Syn → Syn) (r : List Char) : Option (Syn × List Char) :=
-    match pSyn r with
-    | some (a, ')' :: r1) => some (mk a, r1)
-    | _ => none
-  let bin (mk : Syn → Syn → Syn) (r : List Char) : Option (Syn × List Char) :=
-    match pSyn r with
-    | some (a, ',' :: r1) =>
-      (match pSyn r1 with
-       | some (b, ')' :: r2) => some (mk a b, r2)
-       | _ => none)
-    | _ => none
-  match cs with
-  | 'c' :: r => (pInt r).map fun (c, r') => (.chr c, r')
-  | 'd' :: r => some (.dot, r)
-  | 's' :: '[' :: r => (pRanges [] r).map fun (s, r') => (.cls s, r')
-  | 'k' :: '(' :: r => un .star r
-  | 'p' :: '(' :: r => un .plus r
-  | 'q' :: '(' :: r => un .opt r
-  | 't' :: '(' :: r => bin .cat r
-  | 'a' :: '(' :: r => bin .alt r
-  | _ => none
-
-def syn? (s : String) : Option Syn :=
-  match pSyn s.toList with
-  | some (r, []) => some r
-  | _ => none
-
-/-- all strings over `al` of length exactly `n`, lexicographic in the order of `al` -/
-def stringsOfLen (al : List Int) : Nat → List (List Int)
-  | 0 => [[]]
-  | n + 1 => al.flatMap fun c => (stringsOfLen al n).map (c :: ·)
-
-def allStrings (al : List Int) (n : Nat) : List (List Int) :=
-  (List.range (n + 1)).flatMap (stringsOfLen al)
-
-def bits (bs : List Bool) : String := String.ofList (bs.map fun b => if b then '1' else '0')
-
-def showErr (e : Err) : String := "err " ++ (if e = .Fuel then "Fuel" else e.name)
-
-def showTok (t : List Int) : String := ".".intercalate (t.map toString)
-
-def showDFA (d : DFA Bool) : String :=
-  let ts := "/".intercalate (d.trans.map fun row => ",".intercalate (row.map fun t => s!"{t.1}:{t.2.1}:{t.2.2}"))
-  s!"{ts} {bits d.accepts} {d.error}"
-
-def reSize : Re → Nat
-  | .eps => 1
-  | .set _ => 1
-  | .star e => reSize e + 1
-  | .cat l r => reSize l + reSize r + 1
-  | .or l r => reSize l + reSize r + 1
-  | .and l r => reSize l + reSize r + 1
-
-/-- Budget check before `Model.Regex.compile` is called: iterate `processState` (what `loop` does)
-and stop as soon as `fuel` states were expanded or a pending state has more than `limit` nodes
-(without ACI-normalisation the derivatives of some expressions double in size at every step). -/
-def withinBudget (limit : Nat) (root : Re) : Nat → CState Re → Bool
-  | fuel, st =>
-    match st.stack with
-    | [] => true
-    | state :: rest =>
-      match fuel with
-      | 0 => false
-      | fuel + 1 =>
-        let st' := processState reOps root { st with stack := rest } state
-        if st'.stack.any (fun x => decide (reSize x > limit)) then false
-        else withinBudget limit root fuel st'
-
-def sizeLimit : Nat := 4000
-
-def compileB (fuel : Nat) (r : Re) : Except Err (DFA Bool) :=
-  if withinBudget sizeLimit r fuel (addState ⟨[], [], []⟩ r) then compile fuel r else .error .Fuel
-
-def splitSemi (s : String) : List String := (s.splitOn ";").filter (· ≠ "")
-
-def step (line : String) : String :=
-  match words line with
-  | ["parse", t] => match intList? t with
-      | some cs => (match parse cs with
-          | .ok r => "ok " ++ showRe r
-          | .error e => showErr e)
-      | none => "bad-op"
-  | ["pretty", t] => match syn? t with
-      | some t => "ok " ++ showIntList (pretty t)
-      | none => "bad-op"
-  | ["meaning", t] => match syn? t with
-      | some t => "ok " ++ showRe (meaning t)
-      | none => "bad-op"
-  | ["nullable", r] => match re? r with
-      | some r => "ok " ++ (if nullable r then "True" else "False")
-      | none => "bad-op"
-  | ["deriv", r, c] => match re? r, int? c with
-      | some r, some c => "ok " ++ showRe (derivative r c)
-      | _, _ => "bad-op"
-  | ["classes", r] => match re? r with
-      | some r => "ok " ++ ";".intercalate ((derivativeClasses r).map showSet)
-      | none => "bad-op"
-  | ["compile", f, r] => match nat? f, re? r with
-      | some f, some r => (match compileB f r with
-          | .ok d => "ok " ++ showDFA d
-          | .error e => showErr e)
-      | _, _ => "bad-op"
-  | ["acceptsmany", f, r, n, al] => match nat? f, re? r, nat? n, intList? al with
-      | some f, some r, some n, some al => (match compileB f r with
-          | .ok d => "ok " ++ String.ofList ((allStrings al n).map fun s =>
-              match accepts d s with
-              | .ok true => '1'
-              | .ok false => '0'
-              | .error _ => 'R')
-          | .error e => showErr e)
-      | _, _, _, _ => "bad-op"
-  | ["scanmany", f, r, n, al] => match nat? f, re? r, nat? n, intList? al with
-      | some f, some r, some n, some al => (match compileB f r with
-          | .ok d => "ok " ++ " ".intercalate ((allStrings al n).map fun s =>
-              let res := scan d s
-              ";".intercalate (res.1.map showTok) ++ "!" ++ res.2.name)
-          | .error e => showErr e)
-      | _, _, _, _ => "bad-op"
-  | ["auto", f, r, n, al] => match nat? f, re? r, nat? n, intList? al with
-      | some f, some r, some n, some al => (match compileB f r with
-          | .ok d =>
-              let ss := allStrings al n
-              "ok " ++ showDFA d ++ " | " ++ String.ofList (ss.map fun s =>
-                match accepts d s with
-                | .ok true => '1'
-                | .ok false => '0'
-                | .error _ => 'R') ++ " | " ++ " ".intercalate (ss.map fun s =>
-                let res := scan d s
-                ";".intercalate (res.1.map showTok) ++ "!" ++ res.2.name)
-          | .error e => showErr e)
-      | _, _, _, _ => "bad-op"
-  | ["scanvec", f, rs, t] => match nat? f, (splitSemi rs).mapM re?, intList? t with
-      | some f, some rs, some t =>
-          let v : Vec := rs.zipIdx.map fun (r, i) => (i, r)
-          (match compileVec f v with
-          | .ok d =>
-              let res := scanVec d t
-              "ok " ++ ";".intercalate (res.1.map fun p => s!"{p.1}:{showTok p.2}") ++ "!" ++ res.2.name
-          | .error e => showErr e)
-      | _, _, _ => "bad-op"
-  | ["smart", op, a, b] => match re? a, re? b with
-      | some a, some b =>
-        if op = "O" then "ok " ++ showRe (logicalOr a b)
-        else if op = "A" then "ok " ++ showRe (logicalAnd a b)
-        else if op = "C" then "ok " ++ showRe (concatenate a b)
-        else "bad-op"
-      | _, _ => "bad-op"
-  | ["specmany", t, n, al] => match syn? t, nat? n, intList? al with
-      | some t, some n, some al => "ok " ++ bits ((allStrings al n).map (matchB t.rx))
-      | _, _, _ => "bad-op"
-  | ["langmany", r, n, al] => match re? r, nat? n, intList? al with
-      | some r, some n, some al => "ok " ++ bits ((allStrings al n).map (matchB (Spec.RegexLang.denote r)))
-      | _, _, _ => "bad-op"
-  | _ => "bad-op"
-
-def main : IO Unit := mainLoop step
+def main : IO Unit := Proto.mainLoop Model.RegexProto.step
